@@ -22,7 +22,14 @@ def run(ck, build):
     ck.rule("R-C08-GUARD", "inputs shorter than 8 bytes are refused before any access; every other path returns check_tag's verdict (C03's rules on the three SIV decrypt functions)")
     ck.not_decided += ["values; that the computed tag depends on every input bit (cipher property)", "alignment independence is C06's"]
     mod, fns, n = modecommon.run_mode(ck, build, ("siv",), RM, helper_fns=False, floor_obl=100)
-    npair = modecommon.run_pairs(ck, mod, ("siv",), PAIR)
+    try:
+        npair = modecommon.run_pairs(ck, mod, ("siv",), PAIR)
+    except modecommon.Broken as e:
+        if not ck.violations:
+            raise
+        # obligations of the single-function rules were already refuted; that the pairwise comparison cannot follow the code does not take them back
+        ck.note("pairwise comparison not decided: %s" % str(e)[:200])
+        npair = 10 ** 6
     ck.floor("R-C08-PASS", "relational obligations over the three encrypt/decrypt pairs", npair, 60)
     sub = _Ren(ck)
     from ..build import Broken
